@@ -8,12 +8,12 @@ for line in open(os.path.join(root, "mutants", "MATRIX.quick.txt")):
     m = re.match(r"MUTANT seeded-(\S+) suite=(\S+) caught:\[(.*?)\]", line)
     if m:
         rows[m.group(1)] = m.group(3).split()
-first = {"AB": 26, "CD": 22, "EF": 16, "GH": 29, "IJ": 16, "KL": 21, "MN": 30, "OP": 11}  # target-check catches when each round came in (session logs)
-names = {"AB": "round 1 (A, B)", "CD": "round 2 (C, D)", "EF": "round 3 (E, F)", "GH": "round 4 (G, H)", "IJ": "round 5 (I, J)", "KL": "round 6 (K, L)", "MN": "round 7 (M, N)", "OP": "round 8 (O, P; 32)"}
+first = {"AB": 26, "CD": 22, "EF": 16, "GH": 29, "IJ": 16, "KL": 21, "MN": 30, "OP": 11, "Q": 6}  # target-check catches when each round came in (session logs)
+names = {"AB": "round 1 (A, B)", "CD": "round 2 (C, D)", "EF": "round 3 (E, F)", "GH": "round 4 (G, H)", "IJ": "round 5 (I, J)", "KL": "round 6 (K, L)", "MN": "round 7 (M, N)", "OP": "round 8 (O, P; 32)", "Q": "round 9 (Q; 6 properties)"}
 out = ["| | changes | caught by the target property's check: first run | final | caught by ≥ 1 check (final) | caught by none |", "|---|---|---|---|---|---|"]
 tot = [0, 0, 0, 0, 0]
 none = []
-for k in ("AB", "CD", "EF", "GH", "IJ", "KL", "MN", "OP"):
+for k in ("AB", "CD", "EF", "GH", "IJ", "KL", "MN", "OP", "Q"):
     grp = {n: c for n, c in rows.items() if n[3] in k}
     tgt = sum(1 for n, c in grp.items() if n[:3] in c)
     anyc = sum(1 for c in grp.values() if c)
